@@ -86,7 +86,30 @@ func runC13(c *core.Ctx) {
 	c.Analysed(facts.FuncName(nameMap))
 
 	isMapCall := func(v ssa.Value, mapper *ssa.Function, root *ssa.Function, idx int) bool {
-		call, ok := facts.ResolveFree(resolveUp(v, root, 3)).(*ssa.Call)
+		rv := facts.ResolveFree(resolveUp(v, root, 3))
+		// `ctx, repo = r.underlying(ctx, repo)`: one result of a private helper whose
+		// single return maps its own parameters; the helper's parameter stands for
+		// what this call passes
+		if ex, isEx := rv.(*ssa.Extract); isEx && mapper != nil {
+			if hc, isCall := ex.Tuple.(*ssa.Call); isCall {
+				h := hc.Call.StaticCallee()
+				if h != nil && h.Blocks != nil && h != mapper && len(privateCallSites(h)) > 0 {
+					rets := returnsOf(h)
+					if len(rets) == 1 && ex.Index < len(rets[0].Results) {
+						if inner, isIC := facts.Resolve(facts.RetVal(rets[0], ex.Index)).(*ssa.Call); isIC && inner.Call.StaticCallee() == mapper && len(inner.Call.Args) == 2 {
+							if q, isP := facts.Resolve(inner.Call.Args[1]).(*ssa.Parameter); isP && q.Parent() == h {
+								for qi, hp := range h.Params {
+									if hp == q && qi < len(hc.Call.Args) {
+										return argIsParam(hc.Call.Args[qi], root, idx)
+									}
+								}
+							}
+						}
+					}
+				}
+			}
+		}
+		call, ok := rv.(*ssa.Call)
 		if !ok || mapper == nil || call.Call.StaticCallee() != mapper || len(call.Call.Args) != 2 {
 			return false
 		}
@@ -635,15 +658,19 @@ func checkC13CtxMap(c *core.Ctx, cm, nameMap *ssa.Function) {
 		}
 	}
 	// (b) every return is the parameter (nothing to rewrite) or ContextWithScope(ctx, NewScope(...)).
-	for _, r := range returnsOf(cm) {
-		if len(r.Results) != 1 {
+	// (a return of a variable that is the parameter on one incoming edge and the
+	// rewritten context on the other is judged per edge)
+	for _, vr := range virtualReturns(cm) {
+		r := vr.Ret
+		if len(vr.Vals) != 1 {
 			continue
 		}
-		v := facts.Resolve(r.Results[0])
+		v := facts.Resolve(vr.Vals[0])
 		if argIsParam(v, cm, 1) {
 			// allowed only when the scope is empty
 			empty := false
-			for _, cd := range facts.CondsAt(r.Block()) {
+			for _, cd := range vr.Conds {
+				cd = facts.FlattenOne(cd)
 				if call, ok := cd.V.(*ssa.Call); ok && cd.Pos && strings.HasSuffix(facts.CalleeName(&call.Call), "ociauth.Scope).IsEmpty") {
 					empty = true
 				}
